@@ -8,7 +8,7 @@ PROP = {
  'race_allow': [r'main\.\(\*MultiEpoch\)', r'main\.\(\*Epoch\)', r'main\.newMultiEpochHandler', r'/gsfa\.', r'/huge-cache\.'],
  'runs': [
    {'name': 'lock', 'pkg': '.', 'run': '^TestVerifC09Lock$', 'rewrite': ['multiepoch-lock'], 'timeout': '20m'},
-   {'name': 'stress', 'pkg': '.', 'run': '^TestVerifC09(Stress|StressSingle|Lin|Close)$', 'timeout': '40m', 'timeout_thorough': '120m'},
-   {'name': 'stress-race', 'pkg': '.', 'run': '^TestVerifC09(Stress|StressSingle|Lin)$', 'race': True, 'timeout': '60m', 'timeout_thorough': '240m', 'env': {'VERIF_PART_SUFFIX': '-race', 'VERIF_RACE': '1'}},
+   {'name': 'stress', 'pkg': '.', 'run': '^TestVerifC09(Stress|StressSingle|StressNarrow|Lin|Close)$', 'timeout': '40m', 'timeout_thorough': '120m'},
+   {'name': 'stress-race', 'pkg': '.', 'run': '^TestVerifC09(Stress|StressSingle|StressNarrow|Lin)$', 'race': True, 'timeout': '60m', 'timeout_thorough': '240m', 'env': {'VERIF_PART_SUFFIX': '-race', 'VERIF_RACE': '1'}},
  ],
 }
